@@ -480,7 +480,91 @@ def check_C20(ctx):
     family_a(ctx, {"extra": [("stall", 150)]})
 
 
+def run_cases(ctx, kind, cases_file, name=None):
+    h = ctx.build()
+    out = ctx.scratch.path("out-%s.ndjson" % (name or kind))
+    p = vlib.run_harness(h, ["cases", "--kind", kind, "--in", cases_file, "--out", out, "--seed", str(ctx.seed)],
+                         timeout=3000)
+    if p.returncode != 0:
+        crash = crash_event(p.stderr)
+        raise vlib.Infra("case driver %s failed (rc=%d): %s\n%s" % (kind, p.returncode, crash, p.stderr[-3000:]))
+    return out
+
+
+def l2_stateless(ctx, base, kind, rule, expr="Cases", consts=None, sig_keys=(), extra_cases=None, chk="Chk"):
+    """Generic check for a tabular specification: TLC enumerates the cases,
+    the harness runs each on the real code, TLC judges the outcomes."""
+    ctx.build()
+    cases, r = vlib.gen_cases(ctx.scratch, base, expr=expr, consts=consts)
+    ctx.states += r["states"]
+    ctx.transitions += r["generated"]
+    if extra_cases:
+        with open(cases, "a") as f:
+            for c in extra_cases:
+                f.write(json.dumps(c) + "\n")
+    out = run_cases(ctx, kind, cases)
+    j = vlib.monitor_cases(ctx.scratch, base, out, chk=chk)
+    ctx.states += j["tlc_states"]
+    ctx.transitions += j["tlc_generated"]
+    n = j["consumed"]
+    ctx.traces += n
+    ctx.evaluations += n
+    distinct = set()
+    for i, line in enumerate(open(out)):
+        distinct.add(line)
+        if i < 3:
+            ctx.samples.append(json.loads(line))
+    ctx.distinct += len(distinct)
+    ctx.rules.append(rule)
+    for v in j["viol"]:
+        c = v["case"]
+        rec = dict(prop=ctx.prop, why=v["why"], case=c, ev=kind)
+        for k in sig_keys:
+            rec[k] = c.get(k)
+        ctx.add_violation(rec)
+    return j
+
+
+def check_C14(ctx):
+    ctx.exhaustive = True
+    l2_stateless(ctx, "StatusMap", "statusmap",
+                 "all cases of StatusMap!Cases (codes 1..16, 17, 99, 0xFFFFFFFF x request cancelled x renderer "
+                 "{default, writes nothing, custom 418}; HTTP statuses 100..599 without the status header), each run through "
+                 "the real httpgrpc.Server and the real httpgrpc.Channel; distinct = distinct outcome records",
+                 sig_keys=("fam", "code", "renderer", "cancelled", "status"))
+    ctx.assumptions += ["DocTable is transcribed from the doc comment of DefaultErrorRenderer",
+                        "the recorded reply is fed to the client through a replaying http.RoundTripper"]
+
+
+def check_C07(ctx):
+    ks = [0, 1, 3] if ctx.quick else [0, 1, 2, 3, 5, 8]
+    extra = [{"fam": "cutgen", "k": k, "big": False} for k in ks] + [{"fam": "cutgen", "k": 3, "big": True}]
+    l2_stateless(ctx, "Framing", "framing",
+                 "all abstract tapes of Framing!Cases (0..2 complete messages, then nothing / every partial prefix / every "
+                 "size class incl. 0, the 100 MiB limit, limit+1, 2^31-1, -2^31, trailer, over-long trailer / a valid or "
+                 "undecodable trailer / junk after the trailer; clean and abrupt endings) materialised as bytes and decoded "
+                 "by the real client stream (replaying RoundTripper) and the real server stream (crafted request body, "
+                 "streaming and single-request); plus recorded real reply bodies cut at every byte offset",
+                 extra_cases=extra, chk="ChkAny", sig_keys=("fam", "side", "ending"))
+    ctx.assumptions += ["allocation is measured as the delta of runtime.MemStats.TotalAlloc around the decode and compared "
+                        "with the 100 MiB per-message limit plus 32 MiB slack",
+                        "a body cut short is presented as net/http presents it: io.ErrUnexpectedEOF, or a clean io.EOF"]
+
+
+def check_C11(ctx):
+    ctx.exhaustive = True
+    l2_stateless(ctx, "HttpGate", "gate",
+                 "all request shapes of HttpGate!Cases (method x target x content type x header class x GRPC-Timeout class x "
+                 "body class x {Server, HandleServices}), each sent to the real handler through httptest; the reply is parsed "
+                 "(status, X-GRPC-Status, frames, trailer) and judged by HttpGate!Chk",
+                 sig_keys=("method", "target", "ctype", "hdr", "timeout", "body", "carrier"))
+    ctx.assumptions += ["the grpchantesting.TestServer handlers are the application code; a counter wraps them",
+                        "body classes are chosen to be decisively valid or invalid (a truncated unary protobuf that happens to "
+                        "decode is not used)"]
+
+
 CHECKS = {
     "C01": check_C01, "C02": check_C02, "C03": check_C03, "C04": check_C04, "C05": check_C05,
     "C08": check_C08, "C20": check_C20,
+    "C14": check_C14, "C11": check_C11, "C07": check_C07,
 }
